@@ -27,7 +27,7 @@ func init() {
 		Doc: "no inclusion predicate is dropped in plan-time collection", Run: c01Pred})
 	register(&core.Rule{Name: "C01/PAIR-visited", Props: []string{"C01"}, Min: 1,
 		Doc: "visited-fragment marks are written only under request-independent gates", Run: c01Visited})
-	register(&core.Rule{Name: "C01/EXH-collect", Props: []string{"C01"}, Min: 9,
+	register(&core.Rule{Name: "C01/EXH-collect", Props: []string{"C01", "C09"}, Min: 9,
 		Doc: "planner and reference collector agree on selection kinds, gates and fragment-match atoms", Run: c01Collect})
 	register(&core.Rule{Name: "C01/FLOW-args", Props: []string{"C01", "C05"}, Min: 8,
 		Doc: "static and dynamic argument paths coerce the same definitions and ASTs with the same function", Run: c01Args})
@@ -415,6 +415,12 @@ func c01Collect(c *core.Ctx, r *core.Reporter) {
 					}
 				}
 			case *ast.BinaryExpr:
+				if (x.Op == token.EQL || x.Op == token.NEQ) && isNilIdent(info, x.Y) {
+					// the resolved condition type tested for nil: an unknown type name resolves to nil without an error
+					if lx := info.TypeOf(x.X); lx != nil && core.TypeName(lx) == "Type" {
+						a["nil-type"]++
+					}
+				}
 				if x.Op == token.EQL {
 					lx, ly := info.TypeOf(x.X), info.TypeOf(x.Y)
 					if isCallNamed(info, x.X, "Name") && isCallNamed(info, x.Y, "Name") {
@@ -452,7 +458,7 @@ func c01Collect(c *core.Ctx, r *core.Reporter) {
 		r.Unknown("fragment-match", token.NoPos, "planFragmentMatches / doesFragmentConditionMatch not found")
 		return
 	}
-	for _, atom := range []string{"typeFromAST", "IsPossibleType", "name-equal", "identity", "nil-condition", "abstract:Interface", "abstract:Union"} {
+	for _, atom := range []string{"typeFromAST", "IsPossibleType", "name-equal", "identity", "nil-condition", "nil-type", "abstract:Interface", "abstract:Union"} {
 		per := 1
 		if atom == "IsPossibleType" {
 			per = 2
